@@ -17,6 +17,42 @@ def _dec(v):
     return dec(v)
 
 
+def _h3(a, x, c):
+    return ("T", "h3", (a, x, c))
+
+
+# the named constant callables of Pipelines.tla (FnApply / KeyFn / KeyPred), defined on this side too
+FN = {
+    "g": lambda x: ("T", "g", (x,)),
+    "h2": lambda a, b: ("T", "h2", (a, b)),
+    "inc": lambda x: x + 1,
+    "dup": lambda x: [x, x],
+    "isPos": lambda x: x > 0,
+    "isBig": lambda x: x > 1,
+    "ident": lambda x: x,
+    "kz": lambda k: k + "z",
+    "isA": lambda k: k == "a",
+    "kzinc": lambda k, v: (k + "z", v + 1),
+    "isAorBig": lambda k, v: k == "a" or v > 1,
+    "int": int, "str": str, "list": list, "bool": bool,
+}
+NO_PARAM = {"flatten", "negative", "non_positive", "non_negative", "odd", "is_not_none"}
+
+
+def _norm(v):
+    import types
+
+    if isinstance(v, types.MappingProxyType):
+        v = dict(v)
+    if isinstance(v, dict):
+        return {k: _norm(x) for k, x in v.items()}
+    if isinstance(v, list):
+        return [_norm(x) for x in v]
+    if isinstance(v, tuple):
+        return tuple(_norm(x) for x in v)
+    return v
+
+
 class World:
     def __init__(self, lab):
         import labrea.functions as F
@@ -55,6 +91,15 @@ class World:
                 return getattr(self.F, s["h"])
             arg = _dec(s["c"]) if s["mode"] == "const" else self.lab.Option(".".join(s["p"]))
             return getattr(self.F, s["h"])(arg)
+        if k == "helperG":
+            h = s["h"]
+            ps = [FN[p["f"]] if p["mode"] == "fn" else _dec(p["c"]) if p["mode"] == "const" else self.lab.Option(".".join(p["p"]))
+                  for p in s["ps"]]
+            if h in NO_PARAM:
+                return getattr(self.F, h)
+            if h == "partial":
+                return self.Pipeline() + self.F.partial(_h3, ps[0], c=ps[1])
+            return getattr(self.F, h)(*ps)
         raise ValueError(k)
 
     def build(self, term):
@@ -65,7 +110,7 @@ class World:
 
 def _outcome(fn):
     try:
-        return {"ok": True, "v": force(fn())}
+        return {"ok": True, "v": _norm(force(fn()))}
     except Exception as e:  # noqa
         chain = []
         while e is not None and e not in chain:
@@ -78,6 +123,8 @@ def _outcome(fn):
             return {"ok": False, "cls": "KeyNotFound", "key": knf[-1].key}
         if any(isinstance(x, LookupError) for x in chain):
             return {"ok": False, "cls": "Lookup"}
+        if any(isinstance(x, AssertionError) for x in chain):
+            return {"ok": False, "cls": "Assertion"}
         return {"ok": False, "cls": "Raw:" + type(chain[-1]).__name__, "msg": str(chain[-1])[:100]}
 
 
@@ -89,9 +136,9 @@ def _cmp(bad, clause, got, exp):
     elif exp["cls"] == "KeyNotFound":
         if got["ok"] or got.get("cls") != "KeyNotFound" or got.get("key") not in keyset(exp["keys"]):
             bad.append((clause, "expected a missing-key failure for %s, got %s" % (sorted(keyset(exp["keys"])), got)))
-    elif exp["cls"] == "Lookup":
-        if got["ok"] or got.get("cls") != "Lookup":
-            bad.append((clause, "expected a lookup failure, got %s" % (got,)))
+    elif exp["cls"] in ("Lookup", "Assertion"):
+        if got["ok"] or got.get("cls") != exp["cls"]:
+            bad.append((clause, "expected a %s failure, got %s" % (exp["cls"].lower(), got)))
 
 
 def judge_agree(lab, case):
@@ -126,7 +173,7 @@ def judge(lab, case):
 
     pipe = p if isinstance(p, Pipeline) else Pipeline(p)
     # iteration order (behavioural: apply every yielded step to a probe under full options)
-    if term["t"] == "plus" or term["s"]["k"] != "helper":
+    if term["t"] == "plus" or term["s"]["k"] not in ("helper", "helperG"):
         full = {"P": 100, "Q": 200}
         names = []
         for st in pipe:
@@ -173,7 +220,7 @@ def judge(lab, case):
         comp = _outcome(lambda: r.transform(l.transform(copy.deepcopy(x), copy.deepcopy(o)), copy.deepcopy(o)))
         if not (comp["ok"] and got["ok"] and strict_eq(comp["v"], got["v"])):
             bad.append(("compose", "(p + q).transform(x) = %s but q.transform(p.transform(x)) = %s" % (got, comp)))
-    return (term["t"] == "plus" or term["s"]["k"] == "helper"), bad
+    return (term["t"] == "plus" or term["s"]["k"] in ("helper", "helperG")), bad
 
 
 _JUDGE = ["C13"]
@@ -203,7 +250,7 @@ def run(prop, tier, sc, rep):
     viol = []
     sample = None
     if True:
-        for mode, ml in ((("structure", maxlen), ("helpers", 1)) if prop == "C13" else (("structure", maxlen),)):
+        for mode, ml in ((("structure", maxlen), ("helpers", 1), ("helpers2", 1)) if prop == "C13" else (("structure", maxlen),)):
             cfg = sc.path("cfg", "MC_Pipelines_%s.cfg" % mode)
             with open(cfg, "w") as f:
                 f.write('SPECIFICATION Spec\nCONSTANTS\n  MaxLen = %d\n  Mode = "%s"\nINVARIANT Laws\nACTION_CONSTRAINT Emit\nCHECK_DEADLOCK FALSE\n' % (ml, mode))
@@ -254,7 +301,7 @@ def main(tier):
                 "the helper table (%s helpers, parameter as constant and as option, typed inputs); on real pipelines: list(p) applies the "
                 "steps in order, p.transform = (e >> p) = the specification's fold, keys()/explain() contain the parameter keys, "
                 "(p + q).transform = q.transform after p.transform; TLC checks Assoc / IdLeft / IdRight / Compose on the specification; "
-                "non-trivial = composed pipelines and helper cases" % (maxlen, "33"),
+                "non-trivial = composed pipelines and helper cases" % (maxlen, "31 one-parameter + 35 general (function-valued, two-parameter, variadic, dictionary)"),
         "samples": [sample], "exhaustive": True,
         "known_finding_hits": rep.known_hits,
     }, timer.s(), violations=len(rep.violations), assumptions=[
